@@ -74,7 +74,9 @@ def check_tree(doc, warn, post, sphinx_stage=False):
             reported = (("not found: %r" % r) in warn or ("not found: %r" % ru) in warn or ("Unknown target name" in warn)
                         or ((r in warn or ru in warn) and "not found" in warn)
                         # the report is attached to the very reference (its text may spell the target differently, e.g. '#//[x]' -> refid '//x')
-                        or any(isinstance(c, nodes.system_message) and "not found" in c.astext() for c in n.children))
+                        or any(isinstance(c, nodes.system_message) and "not found" in c.astext() for c in n.children)
+                        # docutils' wording of 'target not found' for an automatically numbered footnote reference
+                        or (isinstance(n, nodes.footnote_reference) and "Too many autonumbered footnote references" in warn))
             if not reported and post:
                 v.append(("v-dangling-refid", n.tagname))
     if post:
@@ -98,7 +100,7 @@ FR = [
     "[^a]: A\n\n(a)=\npara named a\n", "[^a]: A\n\n```{note}\n:name: a\nn\n```\n", "![see [^a]](img.png)\n", "![a [b]{#x}](i.png)\n\n[l](#x)\n", "![alt (t)= {#i}](i.png){#img}\n",
     "```{line-block}\na\n  b\nc\n```\n", "```{line-block}\na\n  b\n    c\n  d\ne\n```\n", "<img src=\"a.png\" name=\"foo\">\n<img alt=\"x\">\n\n[link](#foo)\n",
 "```{figure} a.png\n- item\n\n  (tf)=\n  para\n```\n\n[](#tf)\n", "```{figure} a.png\n> ## Hq in figure\n```\n\n[](#hq-in-figure)\n", "```{figure} a.png\n- item x[^a]\n```\n",
-    "```{list-table}\n(tl)=\npara x[^a]\n```\n\n[](#tl)\n",
+    "```{list-table}\n(tl)=\npara x[^a]\n```\n\n[](#tl)\n", "y[^d]\n\n```{figure} a.png\n- item\n\n  [^d]: definition in discarded content\n```\n",
         "<img src=\"a.png\" name=\"foo2\">\n<p>not convertible</p>\n\n[link](#foo2)\n", "<div class=\"admonition\" name=\"adm2\">\n<p>x[^a]</p>\n</div>\n<hr>\n\n[l](#adm2)\n",
         "### H3 skipped\n", "#### H4 skipped\n\ntext\n", "{#h}\npara with the id of a heading\n", "{#h-1}\n- list with the id of the second H\n", "![a](b){#h3-skipped}\n",
     "(t2)=\n## Titled target\n", "[](#t2) and [](#t2) and <project:#t2>\n", "[](#fig1) [](#fig1)\n", "[](#h) [](#h)\n", "x[^a] y[^a]\n",
